@@ -277,7 +277,7 @@ func streamC16order(env *runEnv) {
 	defer srv.close()
 	per := 120
 	if env.thorough() {
-		per = 1200
+		per = 400
 	}
 	for _, transport := range []string{"ws", "legacy"} {
 		var mu sync.Mutex
